@@ -28,7 +28,13 @@ Proof. exact consts_ok. Qed.
 Print Assumptions C05_consts_ok.
 
 (* (1) both variants, both transports, any umask and server credentials, any interleaving with other peers: the
-   accept callback is invoked exactly once for the peer, with the uid and gid the kernel oracle reports for it *)
+   accept callback is invoked exactly once for the peer, with the uid and gid the kernel oracle reports for it.
+   READ THIS WITH THE ORACLE IN MIND: the theorem is about WHAT THE KERNEL REPORTS ([ugp_of p] = [scm_creds real eff],
+   the contents of the auto-filled SCM_CREDENTIALS message read by qb_ipc_auth_creds).  The property text says
+   "kernel-reported effective credentials"; the harness shows on every run that on this platform (Linux) the kernel
+   reports the REAL uid/gid ([scm_creds real eff = real]): a peer with real ids 0:0 and effective ids 65534:65534 is
+   presented to the callback as 0:0.  "Effective" is therefore NOT claimed; what is proved is that libqb passes on the
+   kernel's report unchanged, once. *)
 Theorem C05_accept_credentials : forall en v tr p l k,
   proj k l = admission_ops v tr p ->
   accepts (l_log (run en w_empty l k)) = [(c_uid (ugp_of p), c_gid (ugp_of p))].
